@@ -296,7 +296,8 @@ type vStallWriter interface {
 	write(id int) error
 	flush()
 	close()
-	recSize() int
+	recSize() int      // size of an ordinary record
+	sizeOf(id int) int // size of record id (LJH3 records may differ in length)
 }
 
 type vStall22 struct {
@@ -311,25 +312,35 @@ func (s *vStall22) write(id int) error {
 	}
 	return s.w.WriteRecord(int64(id), int64(id)*1000+7, d)
 }
-func (s *vStall22) flush()       { s.w.Flush() }
-func (s *vStall22) close()       { s.w.Close() }
-func (s *vStall22) recSize() int { return 16 + 2*s.n }
+func (s *vStall22) flush()         { s.w.Flush() }
+func (s *vStall22) close()         { s.w.Close() }
+func (s *vStall22) recSize() int   { return 16 + 2*s.n }
+func (s *vStall22) sizeOf(int) int { return s.recSize() }
 
 type vStall3 struct {
-	w *ljh.Writer3
-	n int
+	w    *ljh.Writer3
+	n    int
+	long int // > 0: every seventh record has this many samples (LJH3 records carry their own length)
+}
+
+func (s *vStall3) lenOf(id int) int {
+	if s.long > 0 && id%7 == 3 {
+		return s.long
+	}
+	return s.n
 }
 
 func (s *vStall3) write(id int) error {
-	d := make([]uint16, s.n)
+	d := make([]uint16, s.lenOf(id))
 	for i := range d {
 		d[i] = uint16(id*31 + i)
 	}
 	return s.w.WriteRecord(int32(1), int64(id), int64(id)*1000+7, d)
 }
-func (s *vStall3) flush()       { s.w.Flush() }
-func (s *vStall3) close()       { s.w.Close() }
-func (s *vStall3) recSize() int { return 24 + 2*s.n }
+func (s *vStall3) flush()            { s.w.Flush() }
+func (s *vStall3) close()            { s.w.Close() }
+func (s *vStall3) recSize() int      { return 24 + 2*s.n }
+func (s *vStall3) sizeOf(id int) int { return 24 + 2*s.lenOf(id) }
 
 type vStallOFF struct {
 	w  *off.Writer
@@ -343,9 +354,10 @@ func (s *vStallOFF) write(id int) error {
 	}
 	return s.w.WriteRecord(100, 10, int64(id), int64(id)*1000+7, float32(id), 0.5, 0.25, co)
 }
-func (s *vStallOFF) flush()       { s.w.Flush() }
-func (s *vStallOFF) close()       { s.w.Close() }
-func (s *vStallOFF) recSize() int { return 36 + 4*s.nb }
+func (s *vStallOFF) flush()         { s.w.Flush() }
+func (s *vStallOFF) close()         { s.w.Close() }
+func (s *vStallOFF) recSize() int   { return 36 + 4*s.nb }
+func (s *vStallOFF) sizeOf(int) int { return s.recSize() }
 
 func vRunStallLayer2(c *vCase) bool {
 	r := c.R
@@ -377,7 +389,12 @@ func vRunStallLayer2(c *vCase) bool {
 			return false
 		}
 		w.WriteHeader()
-		sw = &vStall3{w, nsamp}
+		s3 := &vStall3{w: w, n: nsamp}
+		if vChance(r, 0.5) {
+			s3.long = vPick(r, 3000, 8192, 10000, 40000) // long records among short ones: a long one may meet a queue with little room left
+			c.Cov("l2_ljh3_mixed_lengths", 1)
+		}
+		sw = s3
 	case 2:
 		nb = vPick(r, 1, 3, 8, 40)
 		w := off.NewWriter(path, 1, "chan1", 1, 10, 100, 1e-5, mat.NewDense(nb, 2, make([]float64, 2*nb)), mat.NewDense(2, nb, make([]float64, 2*nb)), "m", "v", "g", "Verif",
@@ -397,6 +414,7 @@ func vRunStallLayer2(c *vCase) bool {
 	// "during-flush"/"during-close": the disk stays stalled, with the queue full, until Flush (Close) has been called
 	releaseAt := vPick(r, "first-reject", "after-rejects", "partly-full", "during-flush", "during-close")
 	var accepted []int
+	accBytes := 0 // total size of the accepted records
 	id := 0
 	rejects := 0
 	firstRejectAfter := -1
@@ -405,6 +423,7 @@ func vRunStallLayer2(c *vCase) bool {
 		for i := 0; i < 5+r.Intn(50); i++ {
 			if sw.write(id) == nil {
 				accepted = append(accepted, id)
+				accBytes += sw.sizeOf(id)
 			}
 			id++
 		}
@@ -418,6 +437,7 @@ func vRunStallLayer2(c *vCase) bool {
 		err := sw.write(id)
 		if err == nil {
 			accepted = append(accepted, id)
+			accBytes += sw.sizeOf(id)
 		} else {
 			rejects++
 			if firstRejectAfter < 0 {
@@ -450,13 +470,14 @@ func vRunStallLayer2(c *vCase) bool {
 			sink.release()
 		}
 	}
-	accAtFlush, flushSeen := -1, 0
+	accAtFlush, flushSeen, accBytesAtFlush := -1, 0, 0
 	if stalledOp != "during-close" {
 		// flush (the consumer running, or released only while Flush waits): everything accepted so far must have reached the pipe
 		if !vWatched(c, "writer.Flush", 30*time.Second, func() { sw.flush() }) {
 			return false
 		}
 		accAtFlush = len(accepted)
+		accBytesAtFlush = accBytes
 		flushSeen = sink.total()
 		// more records after the flush
 		for i := 0; i < r.Intn(30); i++ {
@@ -505,7 +526,7 @@ func vRunStallLayer2(c *vCase) bool {
 		hdrLen, trailing = f.headerLen, f.trailing
 		for _, x := range f.recs {
 			gotIDs = append(gotIDs, int(x.frame))
-			if x.timeUS != x.frame*1000+7 || len(x.data) != nsamp || int(x.data[0]) != int(uint16(x.frame*31)) {
+			if x.timeUS != x.frame*1000+7 || len(x.data) != sw.(*vStall3).lenOf(int(x.frame)) || int(x.data[0]) != int(uint16(x.frame*31)) {
 				c.Violate("c07:l2-torn-record", "%s: record with frame %d is torn (time %d, %d samples)", what, x.frame, x.timeUS, len(x.data))
 				return false
 			}
@@ -539,8 +560,8 @@ func vRunStallLayer2(c *vCase) bool {
 		return false
 	}
 	// the flush: everything accepted before Flush returned had reached the file (pipe) when it returned.
-	if accAtFlush >= 0 && flushSeen < hdrLen+accAtFlush*sw.recSize() {
-		c.Violate("c07:l2-flush-incomplete", "%s: when Flush returned only %d bytes had reached the file, but the header (%d) and %d accepted records of %d bytes had been written before", what, flushSeen, hdrLen, accAtFlush, sw.recSize())
+	if accAtFlush >= 0 && flushSeen < hdrLen+accBytesAtFlush {
+		c.Violate("c07:l2-flush-incomplete", "%s: when Flush returned only %d bytes had reached the file, but the header (%d) and %d accepted records (%d bytes) had been written before", what, flushSeen, hdrLen, accAtFlush, accBytesAtFlush)
 		return false
 	}
 	if accAtFlush >= 0 {
@@ -584,7 +605,7 @@ func init() {
 		},
 		Run: vRunC07,
 		Meta: vMeta{Level: "fault_enumeration",
-			Rule: "3 of 4 cases: asyncbufio.Writer (queue depth 1..64 and the real 1000, flush interval 200us..1h) over a gated in-memory writer that blocks on command; producer issues 30-3000 writes of 1..9000-byte payloads with unique ids, random flushes (also while the gate is closed, in 1 of 8 cases for 1.1-5.6 s) and a final close. 1 of 4 cases: a real LJH2.2 / LJH3 / OFF writer whose file is a 4 KiB named pipe that the harness does not drain until the scripted moment (never stalled / from the header / after some records; released at the first rejection / after several / partly full / only after Flush or Close has been called with the queue full), with record sizes 24..1016 bytes so the first rejection lands on different part indices; fault = the stall point; oracle = bytes at the sink are exactly the accepted payloads/records in order, whole records only, and complete when Flush/Close return",
+			Rule:        "3 of 4 cases: asyncbufio.Writer (queue depth 1..64 and the real 1000, flush interval 200us..1h) over a gated in-memory writer that blocks on command; producer issues 30-3000 writes of 1..9000-byte payloads with unique ids, random flushes (also while the gate is closed, in 1 of 8 cases for 1.1-5.6 s) and a final close. 1 of 4 cases: a real LJH2.2 / LJH3 / OFF writer whose file is a 4 KiB named pipe that the harness does not drain until the scripted moment (never stalled / from the header / after some records; released at the first rejection / after several / partly full / only after Flush or Close has been called with the queue full), with record sizes 24..1016 bytes so the first rejection lands on different part indices; fault = the stall point; oracle = bytes at the sink are exactly the accepted payloads/records in order, whole records only, and complete when Flush/Close return",
 			Assumptions: []string{"Linux named-pipe semantics stand in for a stalling disk", "callers do not modify a buffer after handing it to Write (the record writers do not)"},
 			Guards: map[string]map[string]int{
 				"quick":    {"l1_cases_with_rejection": 40, "l1_flush_while_stalled": 20, "l1_flush_after_stalled_flush": 100, "l1_flushes": 500, "l2_cases_with_rejection": 30, "l2_ljh22": 10, "l2_ljh3": 10, "l2_off": 10, "l2_rejected": 500, "l1_flush_stalled_for_seconds": 10, "l2_during-flush_with_full_queue": 3, "l2_during-close_with_full_queue": 3},
